@@ -360,14 +360,26 @@ func checkPT(scen string, in PTIn) []*mc.Violation {
 	case "clear2":
 		x.Known2 = nil
 	}
+	rawBefore := fmt.Sprintf("%v|%v", x.Paragraph.Order, x.Paragraph.Values)
 	var buf bytes.Buffer
 	var err error
 	if p, msg := mc.Guard(func() { err = control.Marshal(&buf, &x) }); p {
 		return []*mc.Violation{mc.V(scen, "marshal-never-panics", in, "no panic", msg, feats...)}
 	}
-	if err != nil {
-		return []*mc.Violation{mc.V(scen, "marshal-succeeds", in, "nil error", err.Error(), feats...)}
+	_ = rawBefore
+	// marshalling is repeatable: the demanded output is a function of the unknown fields (in order) and the known
+	// fields' current values, neither of which a Marshal call changes, so a second and a third Marshal give the same text
+	before := fmt.Sprintf("%v|%v", x.Paragraph.Order, x.Paragraph.Values)
+	for rep := 2; rep <= 3; rep++ {
+		var again bytes.Buffer
+		if p, msg := mc.Guard(func() { err = control.Marshal(&again, &x) }); p || err != nil {
+			return []*mc.Violation{mc.V(scen, "marshal-is-repeatable", in, "same text every time", fmt.Sprintf("marshal #%d: %v %s", rep, err, msg), feats...)}
+		}
+		if again.String() != buf.String() {
+			return []*mc.Violation{mc.V(scen, "marshal-is-repeatable", in, fmt.Sprintf("%q", buf.String()), fmt.Sprintf("marshal #%d wrote %q", rep, again.String()), feats...)}
+		}
 	}
+	_ = before
 	pr, err := control.NewParagraphReader(strings.NewReader(buf.String()), nil)
 	var para *control.Paragraph
 	if err == nil {
